@@ -63,7 +63,11 @@ def run(ctx):
     from props import C16
     ctx.rule('R12.11', 'the visual distances votes are counted on: euclidean / cosine over the common prefix (rules of C16)')
     n = C16.euclidean_rule(ctx, 'R12.11') + C16.cosine_rule(ctx, 'R12.11')
+    n += C16.padding_rule(ctx, 'R12.11')
     ctx.floor('R12.11', n, 14)
+    ctx.rule('R12.12', 'the count that gates appearance matching is the number of features actually stored (gallery '
+                       'bookkeeping of C13: retain / sort / evict / push / recount)')
+    ctx.floor('R12.12', M.rule_gallery(ctx, 'R12.12'), 8)
 
 
 def gates(ctx, R):
